@@ -1,5 +1,5 @@
 //! Case generation for the IO suites.
-use crate::{guarded, hex, shape::*, suite_io::*, Rng, TypeOps, D};
+use crate::{guarded, hex, shape::*, suite_io::*, Op, Rng, TypeOps, D};
 use std::io::Write;
 
 pub struct Cfg {
@@ -12,6 +12,14 @@ pub struct Cfg {
 }
 fn inits_text(v: &[D]) -> String {
     v.iter().map(|d| d.text()).collect::<Vec<_>>().join("|")
+}
+/// operations that cannot panic and need no `Clone` helper: the rest is replaced or dropped
+fn tame(op: Op) -> Option<Op> {
+    match op {
+        Op::Push(_) | Op::Pop | Op::Truncate(_) | Op::Clear | Op::PushChar(_) | Op::PushStr(_) | Op::FPush(_) | Op::FPop | Op::FTruncate(_) | Op::FClear => Some(op),
+        Op::Item(i, inner) => tame(*inner).map(|o| Op::Item(i, Box::new(o))),
+        _ => None,
+    }
 }
 fn size_of_init(t: &dyn TypeOps, d: &D, big: &mut Vec<u8>) -> Option<usize> {
     let base = { let p = big.as_ptr() as usize; (16 - p % 16) % 16 };
@@ -226,6 +234,57 @@ pub fn run(reg: &[Box<dyn TypeOps>], defaults: &[Option<&'static str>], cfg: &Cf
             // specification of the sent sequence, for the delivery oracle of the R / AR lines of this block
             let want: Vec<String> = inits.iter().zip(&sizes).map(|(d, z)| format!("msg:{}:{}", z, render_init(&sh, d).replace(' ', "_"))).collect();
             writeln!(out, "W {} {} {} => {}", tid, max, hex(&stream), want.join(",")).unwrap();
+            // ---- messages built in place and then mutated through the send guard before `send()` — the way a user fills a message:
+            // pushes, pops, truncations, item edits on the containers (operations that cannot panic). A block of its own: what each
+            // message must contain comes from the abstract machine of the operation suite (a `Vec` of items), run next to the same
+            // operations on a scratch buffer of the send buffer's size
+            let editable = matches!(sh, Shape::Vec(..) | Shape::Str(..) | Shape::Flex(..));
+            if editable && rng.chance(2, 3) {
+                let cap = 2 * max.max(t.min_size());
+                let base = { let p = big.as_ptr() as usize; (16 - p % 16) % 16 };
+                let mut edited: Vec<D> = vec![];
+                let mut ewant: Vec<String> = vec![];
+                let mut etotal = 0usize;
+                for d in inits.iter() {
+                    if base + cap > big.len() { break; }
+                    let mut abs = d.strip_def();
+                    let n = 1 + rng.below(4) as usize;
+                    let mut ops = vec![];
+                    for b in big[base..base + cap].iter_mut() { *b = 0; }
+                    if !matches!(guarded(|| t.new_in_place(&mut big[base..base + cap], d)), Some(Ok(()))) { break; }
+                    let mut okay = true;
+                    for _ in 0..n {
+                        let op = match tame(crate::suite_ops::gen_op(&sh, &abs, &mut rng, 0)) { Some(op) => op, None => continue };
+                        let ret = match guarded(|| t.edit(&mut big[base..base + cap], &op)) { Some(Ok(r)) => r, _ => { okay = false; break; } };
+                        let probe = crate::suite_ops::probe_str(t.as_ref(), &big[base..base + cap]);
+                        let _ = crate::suite_ops::abs_apply(&sh, &mut abs, &op, &ret, crate::suite_ops::top_cap(&probe));
+                        ops.push(op);
+                    }
+                    if !okay { break; }
+                    let z = match guarded(|| t.probe(&big[base..base + cap]).res) { Some(Ok((_, _, z, _, _))) => z, _ => break };
+                    ewant.push(format!("msg:{}:{}", z, render_init(&sh, &abs).replace(' ', "_")));
+                    etotal += z;
+                    edited.push(if ops.is_empty() { d.clone() } else { D::Edited(Box::new(d.clone()), ops) });
+                }
+                if edited.len() == inits.len() {
+                    send_line(&[], &edited, out);
+                    let c = composition(&mut rng, etotal.max(1), 9);
+                    let c = if is_async { with_pendings(&mut rng, &c, 3) } else { c };
+                    send_line(&c, &edited, out);
+                    let clean = if is_async { t.aio_send(&edited, max, &[]) } else { t.io_send(&edited, max, &[]) };
+                    if let Some(x) = clean.split(' ').find(|x| x.starts_with("sink=")) {
+                        let estream = crate::unhex(&x[5..]);
+                        let nrecv = edited.len() + 2;
+                        recv_line(&[], &estream, nrecv, out);
+                        for _ in 0..2 {
+                            let c = composition(&mut rng, estream.len().max(1), 7);
+                            let c = if is_async { with_pendings(&mut rng, &c, 3) } else { c };
+                            recv_line(&c, &estream, nrecv, out);
+                        }
+                        writeln!(out, "W {} {} {} => {}", tid, max, hex(&estream), ewant.join(",")).unwrap();
+                    }
+                }
+            }
             // ---- the same messages as a peer with a different encoder might send them: a FlexVec whose last item carries its real
             // offset and is followed by a terminating zero slot (a valid encoding that this library's sender never produces)
             if let Shape::Flex(_, l) = &sh {
